@@ -65,6 +65,94 @@ def check_case(rep, case):
         rep.nontrivial.add(tc.case_id(case))
 
 
+class Holder(tc.Process):
+    """declares the variables of the rewire targets"""
+    defaults = {'names': ['a']}
+
+    def ports_schema(self):
+        return {'t': {n: {'_default': 0, '_emit': True} for n in self.parameters['names']}}
+
+    def next_update(self, timestep, states):
+        return {}
+
+
+def check_rewire(rep, rc):
+    """Store.connect: build the store, rewire the port to the target, then run an
+    engine from the store: the port now reads and writes the target."""
+    from vivarium.core.store import generate_state
+    from vivarium.core.engine import Engine
+    rep.evaluations += 1
+    loc, kind = tuple(rc['loc']), rc['kind']
+    vs = sorted(rc['vs']) or ['a']
+    sig = {'kind': 'rewire', 'case': json.dumps({k: rc[k] for k in ('loc', 'kind', 'vs', 'p', 'tgt')},
+                                                 sort_keys=True)}
+    if kind == 'leaf':
+        schema = {'P': {'_default': 0, '_emit': True}}
+        update = {'P': 1}
+    else:
+        schema = {'P': {v: {'_default': 0, '_emit': True} for v in vs}}
+        update = {'P': {v: 2 ** i for i, v in enumerate(vs)}}
+    log = []
+    probe = tc.TopoProbe({'schema': schema, 'update': update, 'log': log})
+    processes, topology = {}, {}
+    tc.nested_set(processes, list(loc) + ['proc'], probe)
+    tc.nested_set(topology, list(loc) + ['proc'], {'P': tuple(rc['p'])})
+    tstore = tuple(rc['tgt'][:-1]) if kind == 'leaf' else tuple(rc['tgt'])
+    processes['zz_holder'] = Holder({'names': vs if kind != 'leaf' else ['a']})
+    topology['zz_holder'] = {'t': tstore}
+    before_nodes = {tuple(x['node']): 100 * (i + 1) for i, x in enumerate(rc['before'])}
+    after_nodes = {tuple(x['node']): 1000 * (i + 1) for i, x in enumerate(rc['after'])}
+    initial = {}
+    for n, val in list(before_nodes.items()) + list(after_nodes.items()):
+        tc.nested_set(initial, list(n), val)
+    try:
+        store = generate_state(processes, topology, initial)
+        pnode = store.get_path(loc + ('proc',))
+        target = store.get_path(tuple(rc['tgt']))
+        pnode.connect('P', target)
+        got_entry = pnode.topology['P']
+        reached = pnode.get_path(('P',))
+        eng = Engine(store=store, display_info=False, emitter='null')
+        eng.update(1)
+        after = tc.flatten(eng.state.get_value())
+    except Exception as e:
+        rep.violation(sig, 'C06 rewiring raised %r; case %s' % (e, sig['case']), {'rewire': rc})
+        return
+    if list(got_entry) != rc['newpath']:
+        rep.violation(dict(sig, what='entry'),
+                      'C06 after connect the topology entry is %r, Topology.tla (path_to) gives %r; '
+                      'case %s' % (got_entry, rc['newpath'], sig['case']), {'rewire': rc})
+        return
+    if reached is not target:
+        rep.violation(dict(sig, what='reach'), 'C06 the rewired port does not resolve to the target',
+                      {'rewire': rc})
+        return
+    view = log[0] if log else None
+    exp_view = {'P': after_nodes[tuple(rc['after'][0]['node'])]} if kind == 'leaf' else \
+        {'P': {x['v'][0]: after_nodes[tuple(x['node'])] for x in rc['after']}}
+    if view != exp_view:
+        rep.violation(dict(sig, what='view'),
+                      'C06 after rewiring the process reads %r, the target holds %r; case %s'
+                      % (view, exp_view, sig['case']), {'rewire': rc})
+        return
+    amounts = {(): 1} if kind == 'leaf' else {(v,): 2 ** i for i, v in enumerate(vs)}
+    for x in rc['after']:
+        n = tuple(x['node'])
+        if after.get(n) != after_nodes[n] + amounts[tuple(x['v'])]:
+            rep.violation(dict(sig, what='write'),
+                          'C06 after rewiring the update did not reach %s: %r, expected %r; case %s'
+                          % (n, after.get(n), after_nodes[n] + amounts[tuple(x['v'])], sig['case']),
+                          {'rewire': rc})
+            return
+    for n, val in before_nodes.items():
+        if n not in after_nodes and after.get(n) != val:
+            rep.violation(dict(sig, what='old-target'),
+                          'C06 after rewiring the old target %s changed: %r -> %r; case %s'
+                          % (n, val, after.get(n), sig['case']), {'rewire': rc})
+            return
+    rep.nontrivial.add('rewire' + sig['case'])
+
+
 def run(rep, tier, scratch, only=None):
     runs = [('Topology_1port', {'MaxPorts': 1, 'Locs2': 'TRUE'}, 1)]
     if tier == 'quick':
@@ -84,6 +172,12 @@ def run(rep, tier, scratch, only=None):
         rep.traces += len(sel)
         if sel:
             rep.add_sample(sel[len(sel) // 2])
+    rcases = table.run_table(rep, 'Topology', 'Topology_rewire',
+                             table.cfg({'MaxPorts': 1, 'Locs2': 'TRUE'},
+                                       ['LawRewireReachesTarget'], post='ExportRewire'), scratch)
+    for rc in rcases:
+        check_rewire(rep, rc)
+    rep.notes['rewire_cases'] = len(rcases)
     rep.exhaustive = (tier == 'thorough')
 
 
